@@ -4,6 +4,7 @@ package goat
 
 import (
 	"context"
+	"io"
 
 	"github.com/avos-io/goat/gen/testproto"
 	"google.golang.org/grpc"
@@ -63,3 +64,5 @@ func zzPair() (client RpcReadWriter, server RpcReadWriter) {
 	s2c := make(chan *Rpc, tcap)
 	return NewGoatOverChannel(s2c, c2s), NewGoatOverChannel(c2s, s2c)
 }
+
+func ioEOF() error { return io.EOF }
